@@ -52,23 +52,54 @@ inductive GErr where
   | panic (site : String)     -- the implementation would panic at this site
   deriving Repr, DecidableEq
 
-/-- `Module::build_env`: (module env, build-dep modules) -/
-def buildEnv (r : Resolved) (m : Module) (globalEnv : Env) : Except GErr (Env × Option (List Name)) := do
-  let deps := (importsOf r m.name).filterMap r.module?
-  let mut env := globalEnv
-  let mut bdeps : Option (List Name) := none
-  for dep in deps do
-    env := env.merge dep.envExport
-    if !m.notifyAll then
-      match env.get "notify" with
-      | some (.single _) => throw (.panic "module.rs:build_env unexpected notify value")
-      | some (.list l) => env := env.insert "notify" (.list (l ++ [defineName dep.name]))
-      | none => env := env.insert "notify" (.list [defineName dep.name])
-    if !(dep.name == m.name && dep.contextName == m.contextName) && dep.isBuildDep then
-      bdeps := some (let l := bdeps.getD []; if l.contains dep.name then l else l ++ [dep.name])
+/-- append the dependency's define to `notify`; the variable must be a list (or absent) -/
+def notifyAppend (env : Env) (dep : Module) : Except GErr Env :=
+  match env.get "notify" with
+  | some (.single _) => .error (.panic "module.rs:build_env unexpected notify value")
+  | some (.list l) => .ok (env.insert "notify" (.list (l ++ [defineName dep.name])))
+  | none => .ok (env.insert "notify" (.list [defineName dep.name]))
+
+/-- the env part of one iteration: merge the dependency's exports, then (unless `notify_all`)
+    append it to `notify` -/
+def depEnvStep (m dep : Module) (env : Env) : Except GErr Env :=
+  if m.notifyAll then .ok (env.merge dep.envExport) else notifyAppend (env.merge dep.envExport) dep
+
+/-- is `dep` a build dependency of `m` (a module is not its own build dependency) -/
+def isBuildDepOf (m dep : Module) : Bool :=
+  !(dep.name == m.name && dep.contextName == m.contextName) && dep.isBuildDep
+
+/-- `IndexSet::insert` into the (lazily created) build-dep set -/
+def bdepInsert (bdeps : Option (List Name)) (n : Name) : Option (List Name) :=
+  some (if (bdeps.getD []).contains n then bdeps.getD [] else bdeps.getD [] ++ [n])
+
+/-- the build-dep part of one iteration -/
+def addBuildDep (m dep : Module) (bdeps : Option (List Name)) : Option (List Name) :=
+  if isBuildDepOf m dep then bdepInsert bdeps dep.name else bdeps
+
+/-- the `for dep in deps` loop of `build_env` over the import closure (as modules) -/
+def buildEnvLoop : List Module → Module → Env → Option (List Name) → Except GErr (Env × Option (List Name))
+  | [], _, env, bdeps => .ok (env, bdeps)
+  | dep :: deps, m, env, bdeps =>
+    match depEnvStep m dep env with
+    | .error e => .error e
+    | .ok env' => buildEnvLoop deps m env' (addBuildDep m dep bdeps)
+
+/-- `notify` for a `notify_all` module: every selected non-context module -/
+def notifyAllEnv (r : Resolved) (m : Module) (env : Env) : Env :=
   if m.notifyAll then
-    env := env.insert "notify" (.list ((r.modules.filter (!·.isContextModule)).map (defineName ·.name)))
-  env := env.merge m.envLocal
-  return (env, bdeps)
+    env.insert "notify" (.list ((r.modules.filter (!·.isContextModule)).map (defineName ·.name)))
+  else env
+
+/-- what happens after the loop: `notify_all`, then the module's local env on top -/
+def finishEnv (r : Resolved) (m : Module) (env : Env) : Env := (notifyAllEnv r m env).merge m.envLocal
+
+/-- the import closure of `m` as modules (names without a selected module are skipped) -/
+def importedModules (r : Resolved) (m : Module) : List Module := (importsOf r m.name).filterMap r.module?
+
+/-- `Module::build_env`: (module env, build-dep modules) -/
+def buildEnv (r : Resolved) (m : Module) (globalEnv : Env) : Except GErr (Env × Option (List Name)) :=
+  match buildEnvLoop (importedModules r m) m globalEnv none with
+  | .error e => .error e
+  | .ok p => .ok (finishEnv r m p.1, p.2)
 
 end Laze
